@@ -169,6 +169,7 @@ func (t *Target) SendRequest(w http.ResponseWriter, req *http.Request) {
 	LoggingRequestContext(req).RequestHeaders = t.options.LogRequestHeaders
 	LoggingRequestContext(req).ResponseHeaders = t.options.LogResponseHeaders
 
+	verifYield("pre_send", req, t)
 	inflightRequest := t.getInflightRequest(req)
 	defer t.endInflightRequest(req)
 
@@ -177,6 +178,7 @@ func (t *Target) SendRequest(w http.ResponseWriter, req *http.Request) {
 }
 
 func (t *Target) Drain(timeout time.Duration) {
+	verifYield("drain_start", t)
 	originalState := t.updateState(TargetStateDraining)
 	if originalState == TargetStateDraining {
 		return
@@ -229,6 +231,7 @@ func (t *Target) stopHealthChecks() {
 }
 
 func (t *Target) WaitUntilHealthy(timeout time.Duration) bool {
+	verifYield("wait_healthy", t)
 	select {
 	case <-time.After(timeout):
 		t.stopHealthChecks()
